@@ -79,30 +79,35 @@ def popPairs (s : St) : Nat → R (List (Int × Int) × St)
     let (rest, s) ← popPairs s n
     pure ((a, b) :: rest, s)
 
+/-- one exception of `Ins_DELTAP` on point `A` (function pointers `g`): `C = ((FT_ULong)B & 0xF0) >> 4
+(+16/32) + delta_base; if ( P == C ) { B = ((FT_ULong)B & 0xF) - 8; if ( B >= 0 ) B++; B *= 1L << ( 6 -
+delta_shift ); … func_move }` with the v40 condition `!( iupx_called && iupy_called ) && ( ( is_composite
+&& freeVector.y != 0 ) || ( tags[A] & FT_CURVE_TAG_TOUCH_Y ) )` in backward compatibility mode. -/
+def deltapOne (g : Funcs) (ppem bias shift : Int) (bc iup composite : Bool) (b : Int) (p : HintVec.MPt) : HintVec.MPt :=
+  if wrapU64 ppem = deltaPpem b bias then
+    let d := deltaStep b shift
+    if bc then (if ¬ iup ∧ ((composite ∧ g.fv.y ≠ 0) ∨ p.ty) then funcMove g bc iup p d else p)
+    else funcMove g bc iup p d
+  else p
+
+/-- one exception of `Ins_DELTAC`: `func_move_cvt` = `cvt[A] = ADD_LONG( cvt[A], B )`. -/
+def deltacOne (ppem bias shift : Int) (b v : Int) : Int :=
+  if wrapU64 ppem = deltaPpem b bias then addLong v (deltaStep b shift) else v
+
 def deltapLoop (s : St) (bias : Int) : List (Int × Int) → R St
   | [] => pure s
   | (a, b) :: rest => do
     let i ← asIndex a
     let p ← getZ s s.zp0 i
-    let s ←
-      if wrapU64 s.ppem = deltaPpem b bias then
-        let d := deltaStep b s.deltaShift
-        if s.bc then
-          if ¬ iupd s ∧ ((s.composite ∧ s.fv.y ≠ 0) ∨ p.ty) then moveAt s s.zp0 i d else pure s
-        else moveAt s s.zp0 i d
-      else pure s
-    deltapLoop s bias rest
+    let m := deltapOne (funcs s) s.ppem bias s.deltaShift s.bc (iupd s) s.composite b (mpt p)
+    deltapLoop (setZ s s.zp0 i (withM p m)) bias rest
 
 def deltacLoop (s : St) (bias : Int) : List (Int × Int) → R St
   | [] => pure s
   | (a, b) :: rest => do
     let i ← asIndex a
-    let s ←
-      if wrapU64 s.ppem = deltaPpem b bias then do
-        let d := deltaStep b s.deltaShift
-        let v ← getCvt s i
-        setCvt s i (addLong v d)
-      else pure s
+    let v ← getCvt s i
+    let s ← setCvt s i (deltacOne s.ppem bias s.deltaShift b v)
     deltacLoop s bias rest
 
 /-- `Ins_GETINFO` (v40; `exc->grayscale` is always false there, `face->blend` null for static fonts,
